@@ -240,14 +240,57 @@ Definition dstep_if (s : dsys) (t : nat) (ch : nat) : option (dsys * label) :=
   | _ => dstep s t ch
   end.
 Example dbuf_if_writes_into_full_buffer :
-  let s := exec dsys dstep_if (dinit 3 1 2 (fun _ => 1%nat))
+  let s := exec dsys dstep_if (dinit 3 1 false 2 (fun _ => 1%nat))
              [(1,0);(1,0);(1,0);(1,0);(1,0);(1,0); (2,0);(2,0);(2,0);(2,0); (2,1); (2,0)]%nat in
   d_back s = 2 /\ d_cap s = 1.
 Proof. vm_compute. split; reflexivity. Qed.
 Example dbuf_if_breaks_invariant :
-  ~ DInv (exec dsys dstep_if (dinit 3 1 2 (fun _ => 1%nat))
+  ~ DInv (exec dsys dstep_if (dinit 3 1 false 2 (fun _ => 1%nat))
             [(1,0);(1,0);(1,0);(1,0);(1,0);(1,0); (2,0);(2,0);(2,0);(2,0); (2,1); (2,0)]%nat).
 Proof. intros [_ _ _ _ Hb _ _]. revert Hb. vm_compute. intros [_ H]. apply H. reflexivity. Qed.
+
+(* ------------------------------------------------------------------ *)
+(* (e') NON-BLOCKING double buffer: the MUGGLE_ERR_FULL return path forgets the unlock (the
+   refactoring slip "a non-blocking producer never sleeps: test once, outside the wait loop" that
+   drops the muggle_mutex_unlock accompanying the early return).  The refused writer is back in
+   client code OWNING the mutex: its own retry and the reader's next read block for ever although an
+   item is waiting in the back buffer -- every participant asleep while messages remain. *)
+Definition dstep_fullkeeps (s : dsys) (t : nat) (ch : nat) : option (dsys * label) :=
+  match d_pc (d_thr s t) with
+  | DWChk =>
+    if Nat.leb (d_n s) t then None else
+    if (d_back s =? d_cap s) && d_nb s then Some (dset s t (dpcset (d_thr s t) DWSegF), LPlain [])
+    else dstep s t ch
+  | _ => dstep s t ch
+  end.
+Definition d_fullkeeps_sched : list (nat * nat) :=
+  List.repeat (1%nat, 0%nat) 6 ++          (* writer: first item accepted (capacity 1) *)
+  List.repeat (1%nat, 0%nat) 5 ++          (* second write: lock, FULL, return WITHOUT unlock, note, yield *)
+  [(0,0); (1,0)]%nat.                       (* reader goes for the mutex; writer retries: at its lock *)
+Example dbuf_full_return_keeping_mutex_deadlocks :
+  let s := exec dsys dstep_fullkeeps (dinit 2 1 true 2 (fun _ => 2%nat)) d_fullkeeps_sched in
+  d_back s = 1 /\ d_m s = Some 1%nat /\
+  d_pc (d_thr s 1%nat) = DWLock /\ d_pc (d_thr s 0%nat) = DRLock /\
+  (forall t, (t < 2)%nat -> dstep_fullkeeps s t 0 = None).
+Proof.
+  cbv zeta. repeat split; try (vm_compute; reflexivity).
+  intros [|[|u]] H; [vm_compute; reflexivity|vm_compute; reflexivity|lia].
+Qed.
+(* ... and it breaks the ownership invariant (owner => inside a call between lock and unlock / wait) *)
+Example dbuf_full_return_keeping_mutex_breaks_invariant :
+  ~ DInv (exec dsys dstep_fullkeeps (dinit 2 1 true 2 (fun _ => 2%nat)) (List.repeat (1%nat, 0%nat) 9)).
+Proof.
+  intros [_ _ _ Hown _ _ _].
+  assert (E : d_m (exec dsys dstep_fullkeeps (dinit 2 1 true 2 (fun _ => 2%nat)) (List.repeat (1%nat, 0%nat) 9)) = Some 1%nat)
+    by (vm_compute; reflexivity).
+  destruct (Hown _ E) as [_ C]. revert C. vm_compute. discriminate.
+Qed.
+(* the faithful model on the same schedule: the refused writer has released the mutex, the reader
+   gets it *)
+Example dbuf_full_return_faithful_same_schedule :
+  let s := exec dsys dstep (dinit 2 1 true 2 (fun _ => 2%nat)) d_fullkeeps_sched in
+  d_m s = None /\ exists t, (t < 2)%nat /\ dstep s t 0 <> None.
+Proof. cbv zeta. split; [vm_compute; reflexivity|exists 0%nat; split; [lia|vm_compute; discriminate]]. Qed.
 
 (* ------------------------------------------------------------------ *)
 (* (f) synclock: wake BEFORE the store of UNLOCK.  The woken thread finds the word still LOCK,
